@@ -19,13 +19,13 @@ CHECKS = {
          "For every generated many-year, many-security history the yearly figures, table totals, aggregate and 'Since inception' are recomputed from the reported rows (exact, tolerance 1e-18), every default-precision cell is compared with the half-away-from-zero rounding of the same cell at full precision, and a sample is run through the real acb binary to compare the CSV directory and text output with the render model.",
          "Rounding oracle is applied to every dollar token; rejected securities' own totals are C04's business.", "C06"),
  "C07": ("exploration", "metamorphic runtime monitor (admissible re-layouts of the same rows)",
-         "Each base input is re-laid-out K times (file partitions incl. empty pieces, column permutations, header case/padding, unrecognised columns, padded values, admissible row permutations) and every reported table, footer, error list and aggregate must be string-identical to the base run.",
+         "Each base input is re-laid-out K times (file partitions incl. empty pieces, column permutations, header case/padding, unrecognised and unnamed columns, padded values, admissible row permutations) and every reported table, footer, error list and aggregate must be string-identical to the base run; the stated processing order (settlement date, then position in the input) is checked on every base run, and the real binary is given 2-4 files whose command-line order is the reverse of their alphabetical order, cut inside a same-day cluster.",
          "Only layouts the statement calls admissible are generated; both runs stopping at the load stage counts as agreement.", "C07"),
  "C08": ("exploration", "metamorphic runtime monitor (A, B, A+B over disjoint securities, separate processes)",
-         "A, B and an interleaving A+B are run in different processes; each security's table and errors must be identical, errors must not name other securities, the combined aggregate must be the sum of the parts and in every run the aggregate must equal the securities' own totals.",
+         "A, B and an interleaving A+B (in a third of the pairs given as 2-3 files; in a third with equivalent affiliate spellings varied row by row) are run in different processes; each security's table and errors must be identical, errors must not name other securities, the combined aggregate must be the sum of the parts and in every run the aggregate must equal the securities' own totals.",
          "B contains deliberately impossible rows; whole-run load-stage errors are excluded.", "C08"),
  "C15": ("exploration", "metamorphic runtime monitor (insert split, restate later rows)",
-         "Each split-free base history is compared with K variants carrying one inserted split (forward, reverse, decimal; for all affiliates or one row per affiliate; on an event's day, between events, after the last) and exactly restated later rows: gains, SfL amounts and cost bases must agree within 1e-9, share counts and per-share costs must scale by the ratio, acceptance must be identical.",
+         "Each split-free base history is compared with K variants carrying one or two inserted splits (forward, reverse, decimal; for all affiliates or one row per affiliate; on an event's day, between events, after the last) and exactly restated later rows: gains, SfL amounts and cost bases must agree within 1e-9, share counts and per-share costs must scale by the ratio, acceptance must be identical.",
          "Ratios are restricted to those whose restatement is exactly representable in decimal (prime factors 2 and 5).", "C15"),
  "C16": ("exploration", "metamorphic runtime monitor (-b SYM:n:c vs opening purchase) + malformed-spec monitor on the binary",
          "Every generated input is run with an opening position and, separately, with an equivalent purchase by the default affiliate 31-1000 days earlier; every cell of every later row, footers, errors and the aggregate must be identical, positions for absent securities must have no effect, and every malformed specification must make the binary exit non-zero with a message and no report (library entry point likewise).",
@@ -40,19 +40,19 @@ CHECKS = {
          "Every front end is driven with hostile workloads (a slice of every other check's generator under random options, in-range extreme and tiny numerics, 25 kinds of byte-level CSV mutation plus truncation at every offset of a small file, malformed options and opening positions, hostile remote bodies, generated spreadsheets and confirmation texts); a panic hook records message and location, crashes and hangs are isolated by re-running the case alone, and every failing run must carry a diagnostic naming a file, row or security. Termination is judged by a watchdog plus isolated re-run, i.e. bounded progress, not an unbounded claim.",
          "PDF byte parsing by third-party crates and network errors are outside the statement; known findings are keyed on panic site + message + input class (known_findings.json).", "C05"),
  "C09": ("exploration", "repeated-run byte comparison over separate processes + hash-schedule canary",
-         "Each command (tables, CSV directory, total costs, summary, annual summary, with and without full values) is run N times in separate processes on inputs that weight the hash-ordered paths, and M times in-process; stdout bytes and the output directory tree must be identical. A canary shows how many distinct hash schedules were actually seen. Detection is probabilistic in the number of schedules sampled.",
+         "Each command (tables, CSV directory, total costs, summary, annual summary, with and without full values and --verbose) is run N times in separate processes on inputs that weight the hash-ordered paths, and M times in-process; stdout bytes and the output directory tree must be identical. A canary shows how many distinct hash schedules were actually seen. Detection is probabilistic in the number of schedules sampled.",
          "The schedule space cannot be enumerated without replacing the hasher; stderr is not part of the statement.", "C09"),
  "C11": ("exploration", "round-trip runtime monitor through the real CSV writer and reader + independent parse of the written bytes",
          "Valid transaction lists are built through the public types, written with the real writer, read back with the real parser and conversion, and written again; the re-read transactions must equal the spec field by field (decimals by value), the second output must be byte-identical unless one of the two differences the statement allows occurred, and Python's csv module independently parses the first output and compares every cell with the spec.",
          "The harness echoes the Tx it built and the check refuses to judge if that differs from the spec (guards the oracle).", "C11"),
  "C12": ("exploration", "reference-model runtime monitor over look-up events + exhaustive gap x new-year family",
-         "A publication-calendar model decides what each look-up must return; the real URL choice, JSON parser and RateLoader run behind a series-aware fake requester with the public 'today' override; every look-up uses a fresh loader. The family gap length 0-9 x look-up date Dec 25..Jan 10 x 4 year kinds is enumerated completely; application rows check the converted Amount/Commission cells and the rejection of CAD-with-rate and rate-less other currencies.",
+         "A publication-calendar model decides what each look-up must return; the real URL choice, JSON parser and RateLoader run behind a series-aware fake requester with the public 'today' override; every look-up uses a fresh loader, and the same look-ups are repeated inside one run in ascending date order. The family gap length 0-9 x look-up date Dec 25..Jan 10 x 4 year kinds is enumerated completely; application rows check the converted Amount/Commission cells and the three currency rules (explicit rate wins, CAD needs none and accepts only 1, other currencies need their own) on both the trade and the commission columns.",
          "Only valid positive observations of the series the statement names for that year count as published.", "C12"),
  "C13": ("exploration", "history monitor over recorded cache_read / cache_write / download events",
          "Histories of runs sharing one cache (in-memory, or a real CsvRatesCache directory) are executed with instrumented cache and remote wrappers; every look-up must equal the no-cache reference answer for that run's data, a year may be downloaded at most once per run, and a look-up whose needed dates are certainly in the cache (an earlier download happened after them) must cause no download unless forced.",
          "Remote data is monotone over a history (published rates never disappear) and contains everything published before each run's date, as the statement requires.", "C13"),
  "C14": ("fault_enumeration", "crash-state enumeration from a recorded syscall log (strace) + real kill injection to validate the model",
-         "The real cache write is traced with strace; from the log (whatever the write procedure is) every process-kill state (syscall boundaries and byte cuts inside each write) and power-loss state (prefixes of un-fsynced data, non-durable truncation, rename durable before its data) is materialised, with an earlier run's cache content and, in half the scenarios, debris of an earlier interrupted write present; a fresh RateLoader answers look-ups over each state and every returned rate must be the published one for the right day (wrong-day answers that the uncrashed cache gives too are not attributed to the crash). Real SIGKILLs injected at each write syscall must land in a modelled state. thorough enumerates every byte offset.",
+         "The real cache write is traced with strace; from the log (whatever the write procedure is) every process-kill state (syscall boundaries and byte cuts inside each write) and power-loss state (prefixes of un-fsynced data, non-durable truncation, rename durable before its data) is materialised, from four start states in rotation (an earlier run's cache content; the same plus debris of an earlier interrupted write; a cold directory; a cache file that is a symbolic link); a fresh RateLoader answers look-ups over each state and every returned rate must be the published one for the right day (wrong-day answers that the uncrashed cache gives too are not attributed to the crash). Real SIGKILLs injected at each write syscall must land in a modelled state. thorough enumerates every byte offset.",
          "Ordered-prefix persistence inside one file; one traced run is representative of the deterministic write procedure.", "C14"),
  "C20": ("exploration", "reference-model runtime monitor over generated statements + page-visit monitor on real lopdf-written PDFs",
          "Generated allocation tables in the documented layout are parsed by the real state machine and compared with the generating spec (each holding once, allocation, value, total, month). Real multi-page PDFs whose pages carry unique tokens are iterated through safe_page_chunks_with_remainder + optimized_iter in sequential and task-parallel mode under exhaustively enumerated single-group hints and random multi-group hints; every page must be yielded, no other page requested, each text must carry its own token; the pure chunk helper is also driven for page counts up to 400.",
@@ -62,7 +62,7 @@ CHECKS = {
          "Numeric cells are compared exactly against the shortest decimal that round-trips the stored double, as a spreadsheet displays it.", "C18"),
  "C19": ("exploration", "reference-model runtime monitor over generated confirmation texts (exhaustive subset accounting as oracle)",
          "Confirmation texts generated from the checked-in samples' layouts are extracted by the real extractor under three file orders; an exhaustive subset search decides whether the output is a valid exactly-once accounting (one purchase per benefit, every confirmation consumed by one sell-to-cover within five days of its benefit or emitted once as a manual trade), whether an unmatchable set is reported rather than guessed, and order by settlement date; the output is fed to acb and a sample runs through the real binary.",
-         "Option-exercise (ESO) confirmations are not generated; texts follow the two supported trade-confirmation layouts.", "C19"),
+         "Texts follow the supported layouts (RSU, ESPP, option exercise, pre- and post-2023 trade confirmations incl. purchases and confirmations of identical content).", "C19"),
 }
 PENDING = {}
 
